@@ -538,6 +538,7 @@ type FuncSpec struct {
 	Extern           bool // function outside /repo; contract assumed
 	NoPanic          bool
 	NoOverflow       bool
+	IndexFn          bool     // slice element positions are sl.ix(off,i) (uninterpreted, axiom off+i): E-matching finds a[e] for arithmetic e
 	AbstractMod      bool     // remainders with a symbolic divisor are uninterpreted (with range facts)
 	Stable           []string // struct fields (pkg.Type.field) assumed not to be written by any callee of this function
 	OnErrorUnchanged []Expr
@@ -977,6 +978,10 @@ func parseContractFile(path, pkgPath string) (*SpecFile, error) {
 		case "abstract_mod":
 			if cur != nil {
 				cur.AbstractMod = true
+			}
+		case "index_fn":
+			if cur != nil {
+				cur.IndexFn = true
 			}
 		case "nooverflow":
 			if cur != nil {
